@@ -2,7 +2,8 @@
 //!
 //!  D <spec>   synthesize the dump described by the spec (see ../dumpspec.rs), serve the spec's
 //!  F <spec>   symbol bytes, run process_minidump_with_options under the option set(s), then
-//!             print / print_brief / print_json(false|true) into counting sinks.
+//!             print / print_brief / print_json(false|true) into counting sinks.  opt: 0 stable_basic, 1 stable_all,
+//!             2 unstable_all, 3 = those three, 4 unstable_all + evil_json (evil=<hex>) + stat_reporter, 5 = all four.
 //!     answer: OK r=<ok|readerr|err:..|timeout> thr=<threads> fr=<max frames>/<stack bytes of that thread>
 //!             fb=<1 iff every thread has frames <= stack bytes + 2> peak=<peak heap bytes> in=<input bytes>
 //!             out=<bytes rendered> ms=<wall ms>
@@ -12,6 +13,7 @@
 //!  S <rsp> <op>   amd64 crash at op (0 push [rax] 1 call [rax] 2 pop [rax] 3 ret 4 push rax 5 call rel32
 //!                 6 pop rax 7 mov rax,[rax]) with rax = 0x5000 -> S <access addresses, comma separated | ->
 //!  J <n> (base size)*n <u> (base size)*u  -> J <end_addr,...>|<unloaded end_addr,...>   (from print_json)
+//!  A <hex of a function name>            -> A <cc> <argument names hex,...> | A -   (x86 argument recovery, unstable_all)
 //! A panic anywhere inside a case is answered `P;;<message>` by vharness::for_each_case.
 #[path = "../dumpspec.rs"]
 mod dumpspec;
@@ -83,20 +85,43 @@ enum Outcome {
     Timeout,
 }
 
-fn process(dump: &Minidump<'_, Vec<u8>>, syms: &HashMap<String, Vec<u8>>, opt: u32) -> Outcome {
+/// opt 0..2: the three public option sets; opt 4: unstable_all plus every other flag of ProcessorOptions
+/// (evil_json file when the case carries one, stat_reporter with all subscriptions)
+fn process(dump: &Minidump<'_, Vec<u8>>, syms: &HashMap<String, Vec<u8>>, opt: u32, evil: Option<&std::path::Path>) -> Outcome {
     let rt = tokio::runtime::Builder::new_current_thread().enable_time().build().unwrap();
     let all_utf8 = syms.values().all(|b| std::str::from_utf8(b).is_ok());
+    let mut subs = minidump_processor::PendingProcessorStatSubscriptions::default();
+    subs.thread_count = true;
+    subs.frame_count = true;
+    subs.unwalked_result = true;
+    subs.live_frames = true;
+    let reporter = minidump_processor::PendingProcessorStats::new(subs);
+    let mut o = options(opt);
+    if opt >= 4 {
+        o.evil_json = evil;
+        o.stat_reporter = Some(&reporter);
+    }
     let fut = async {
         if all_utf8 {
             let m: HashMap<String, String> = syms.iter().map(|(k, v)| (k.clone(), String::from_utf8(v.clone()).unwrap())).collect();
             let provider = Symbolizer::new(string_symbol_supplier(m));
-            tokio::time::timeout(Duration::from_secs(40), minidump_processor::process_minidump_with_options(dump, &provider, options(opt))).await
+            tokio::time::timeout(Duration::from_secs(40), minidump_processor::process_minidump_with_options(dump, &provider, o)).await
         } else {
             let provider = Symbolizer::new(BytesSupplier { modules: syms.clone() });
-            tokio::time::timeout(Duration::from_secs(40), minidump_processor::process_minidump_with_options(dump, &provider, options(opt))).await
+            tokio::time::timeout(Duration::from_secs(40), minidump_processor::process_minidump_with_options(dump, &provider, o)).await
         }
     };
-    match rt.block_on(fut) {
+    let res = rt.block_on(fut);
+    if opt >= 4 {
+        // the live statistics must be readable, and the pre-walk state renderable, whatever happened
+        let _ = reporter.get_thread_count();
+        let _ = reporter.get_frame_count();
+        reporter.drain_new_frames(|_f| {});
+        if let Some(pre) = reporter.take_unwalked_result() {
+            render(&pre);
+        }
+    }
+    match res {
         Err(_) => Outcome::Timeout,
         Ok(Ok(s)) => Outcome::Ok(s),
         Ok(Err(e)) => Outcome::Err(format!("{:?}", e).split(|c: char| !c.is_alphanumeric()).next().unwrap_or("?").to_string()),
@@ -152,11 +177,21 @@ fn run_whole(spec: &Spec) -> String {
         Err(_) => return format!("OK r=readerr thr=0 fr=0/0 fb=1 peak=0 in={} out=0 ms=0", insz),
     };
     let syms = symbol_table(spec, &dump);
-    let opts: Vec<u32> = if spec.opt >= 3 { vec![0, 1, 2] } else { vec![spec.opt] };
+    let opts: Vec<u32> = match spec.opt {
+        3 => vec![0, 1, 2],
+        5 => vec![0, 1, 2, 4],
+        x => vec![x],
+    };
+    let evil_file = spec.extra.get("evil").map(|h| {
+        let mut f = tempfile::NamedTempFile::new().expect("tmp");
+        f.write_all(&unhex(h)).unwrap();
+        f
+    });
+    let evil = evil_file.as_ref().map(|f| f.path());
     let mut res = String::from("ok");
     let (mut thr, mut fr, mut sb, mut fb, mut out) = (0usize, 0usize, 0u64, true, 0usize);
     for o in opts {
-        match process(&dump, &syms, o) {
+        match process(&dump, &syms, o, evil) {
             Outcome::Timeout => res = "timeout".into(),
             Outcome::Err(e) => res = format!("err:{}", e),
             Outcome::Ok(state) => {
@@ -181,7 +216,7 @@ fn hexs(s: &str) -> String {
 
 fn state_of(spec: &Spec) -> ProcessState {
     let dump = Minidump::read(build_dump(spec)).expect("read");
-    match process(&dump, &HashMap::new(), 0) {
+    match process(&dump, &HashMap::new(), 0, None) {
         Outcome::Ok(s) => s,
         Outcome::Err(e) => panic!("process error {}", e),
         Outcome::Timeout => panic!("timeout"),
@@ -294,11 +329,11 @@ fn run_json_modules(t: &mut Toks) -> String {
     spec.threads.push(ThreadSpec { id: 1, stack_base: 0x10000, stack: vec![0; 64], regs: Some(vec![("rip".into(), 0x1000), ("rsp".into(), 0x10000)]) });
     let n = t.usize();
     for i in 0..n {
-        spec.modules.push(ModSpec { base: t.u64(), size: t.u64() as u32, name: format!("/m/mod{}", i), sym: None });
+        spec.modules.push(ModSpec { base: t.u64(), size: t.u64() as u32, name: format!("/m/mod{}", i), sym: None, debug: None });
     }
     let u = t.usize();
     for i in 0..u {
-        spec.unloaded.push(ModSpec { base: t.u64(), size: t.u64() as u32, name: format!("/u/unl{}", i), sym: None });
+        spec.unloaded.push(ModSpec { base: t.u64(), size: t.u64() as u32, name: format!("/u/unl{}", i), sym: None, debug: None });
     }
     let state = state_of(&spec);
     let mut s = Sink(0);
@@ -321,6 +356,38 @@ fn run_json_modules(t: &mut Toks) -> String {
     format!("J {}|{}", ends("modules"), ends("unloaded_modules"))
 }
 
+/// A <hex of a function name (UTF-8)>: x86 / Windows thread inside a module whose symbol file names the
+/// covering FUNC so; unstable_all. -> A <cc 0 cdecl|1 thiscall> <arg names hex, comma separated> | A -
+fn run_args(t: &mut Toks) -> String {
+    let name = String::from_utf8(unhex(t.str())).expect("utf8 name");
+    let mut spec = Spec { cpu: "x86".into(), os: "win".into(), opt: 2, ..Default::default() };
+    spec.threads.push(ThreadSpec { id: 1, stack_base: 0x10000, stack: vec![0; 64], regs: Some(vec![("eip".into(), 0x400010), ("esp".into(), 0x10000)]) });
+    spec.modules.push(ModSpec { base: 0x400000, size: 0x1000, name: "c:\\m\\mod.dll".into(), sym: Some(0), debug: None });
+    spec.syms.push(format!("MODULE windows x86 000000000000000000000000000000000 mod.pdb\nFUNC 0 1000 0 {}\n", name).into_bytes());
+    let dump = Minidump::read(build_dump(&spec)).expect("read");
+    let syms = symbol_table(&spec, &dump);
+    let state = match process(&dump, &syms, 2, None) {
+        Outcome::Ok(s) => s,
+        Outcome::Err(e) => panic!("process error {}", e),
+        Outcome::Timeout => panic!("timeout"),
+    };
+    render(&state);
+    let f0 = &state.threads[0].frames[0];
+    if f0.function_name.as_deref() != Some(name.as_str()) {
+        return format!("A ?name {}", hexs(f0.function_name.as_deref().unwrap_or("<none>")));
+    }
+    match &f0.arguments {
+        None => "A -".into(),
+        Some(a) => {
+            let cc = match a.calling_convention {
+                minidump_unwind::CallingConvention::Cdecl => 0,
+                _ => 1,
+            };
+            format!("A {} {}", cc, a.args.iter().map(|x| hexs(&x.name)).collect::<Vec<_>>().join(","))
+        }
+    }
+}
+
 fn run(line: &str) -> String {
     let mut t = Toks::new(line);
     match t.str() {
@@ -332,6 +399,7 @@ fn run(line: &str) -> String {
         "G" => run_guard(&mut t),
         "S" => run_stack_access(&mut t),
         "J" => run_json_modules(&mut t),
+        "A" => run_args(&mut t),
         x => panic!("kind {}", x),
     }
 }
